@@ -33,6 +33,7 @@ import (
 	_ "github.com/honeytrap/honeytrap/services/ldap"
 	_ "github.com/honeytrap/honeytrap/services/redis"
 	_ "github.com/honeytrap/honeytrap/services/smtp"
+	_ "github.com/honeytrap/honeytrap/services/snmp"
 	_ "github.com/honeytrap/honeytrap/services/telnet"
 	"github.com/honeytrap/honeytrap/storage"
 	"verif/harness/hx"
@@ -61,9 +62,11 @@ type Obs struct {
 
 var svcCode = map[string]int{"ftp": 1, "smtp": 2, "redis": 3, "memcached": 4, "http": 5, "docker": 6,
 	"elasticsearch": 7, "eos": 8, "ethereum": 9, "cwmp": 10, "telnet": 11, "ldap": 12,
-	"memcached-udp": 20, "tftp": 21, "counterstrike": 22, "dns": 23}
+	"memcached-udp": 20, "tftp": 21, "counterstrike": 22, "dns": 23, "snmp": 25,
+	"memcached-udp-seq": 120, "tftp-seq": 121, "counterstrike-seq": 122, "dns-seq": 123, "snmp-seq": 125}
 
-var svcReg = map[string]string{"memcached-udp": "memcached"}
+var svcReg = map[string]string{"memcached-udp": "memcached", "memcached-udp-seq": "memcached", "tftp-seq": "tftp",
+	"counterstrike-seq": "counterstrike", "dns-seq": "dns", "snmp-seq": "snmp"}
 
 func regName(s string) string {
 	if r, ok := svcReg[s]; ok {
@@ -74,7 +77,8 @@ func regName(s string) string {
 
 var svcPort = map[string]int{"ftp": 21, "smtp": 25, "redis": 6379, "memcached": 11211, "http": 80, "docker": 2375,
 	"telnet": 23, "ldap": 389, "elasticsearch": 9200, "eos": 8888, "ethereum": 8545, "cwmp": 7547, "memcached-udp": 11211, "tftp": 69,
-	"counterstrike": 27015, "dns": 53}
+	"counterstrike": 27015, "dns": 53, "snmp": 161,
+	"memcached-udp-seq": 11211, "tftp-seq": 69, "counterstrike-seq": 27015, "dns-seq": 53, "snmp-seq": 161}
 
 // ---- recording channel ----
 type recorder struct {
@@ -127,6 +131,8 @@ func toEv(e event.Event) Ev {
 		ev = &Ev{12, fields(e, "counterstrike.query", "payload")}
 	case "dns":
 		ev = &Ev{13, fields(e, "dns.id")}
+	case "snmp":
+		ev = &Ev{19, []hx.B{hx.B(ty), hx.B(e.Get("snmp.community")), hx.B(e.Get("snmp.oids"))}}
 	case "telnet":
 		switch ty {
 		case "connect":
@@ -391,14 +397,55 @@ func runUDP(in Input) (Obs, string) {
 	case f := <-done:
 		all := rec.snapshot()
 		return Obs{Events: all[before:], Code: f.code, Panic: f.msg}, ""
-	case <-time.After(3 * time.Second):
-		return Obs{Events: rec.snapshot()[before:]}, "Handle did not return within 3 s of a datagram (still running)"
+	case <-time.After(30 * time.Second):
+		return Obs{Events: rec.snapshot()[before:]}, "Handle did not return within 30 s of a datagram (still running)"
 	}
+}
+
+// a sequence case: a FRESH service object (new limiter), all datagrams from ONE source address,
+// one Handle per datagram, one after the other; the events of all of them in order
+func runUDPSeq(in Input) (Obs, string) {
+	fn, ok := services.Get(regName(in.Svc))
+	if !ok {
+		hx.Fatal("service %s is not registered", in.Svc)
+	}
+	rec := &recorder{}
+	svc := fn(services.WithChannel(rec))
+	udpSeq++
+	raddr := &net.UDPAddr{IP: net.IPv4(10, 200, byte(udpSeq>>8), byte(udpSeq)), Port: 40123}
+	ob := Obs{}
+	for _, d := range segments(in) {
+		dc := &listener.DummyUDPConn{Buffer: append([]byte(nil), d...), Laddr: &net.UDPAddr{IP: net.ParseIP("192.0.2.1"), Port: svcPort[in.Svc]}, Raddr: raddr,
+			Fn: func(b []byte, a *net.UDPAddr) (int, error) { return len(b), nil }}
+		done := make(chan int, 1)
+		go func() {
+			defer func() {
+				if e := recover(); e != nil {
+					done <- 2
+				}
+			}()
+			svc.Handle(context.Background(), server.TimeoutConn(dc, 30*time.Second))
+			done <- 0
+		}()
+		select {
+		case c := <-done:
+			if c == 2 {
+				ob.Code = 2
+			}
+		case <-time.After(30 * time.Second):
+			return Obs{Events: rec.snapshot()}, "Handle did not return within 30 s of a datagram"
+		}
+	}
+	ob.Events = rec.snapshot()
+	return ob, ""
 }
 
 func isUDP(svc string) bool { return svcCode[svc] >= 20 }
 
 func runOne(in Input) (Obs, string) {
+	if svcCode[in.Svc] >= 100 {
+		return runUDPSeq(in)
+	}
 	if isUDP(in.Svc) {
 		return runUDP(in)
 	}
